@@ -6,7 +6,9 @@ combinators), makes every index-like use of it (subscript index, exponent, multi
 increment) equal to k-1: the first retry uses the first strategy / the initial delay (tenacity
 semantics).  Strategy classes are discovered from the class hierarchy; the few arithmetic
 expressions are evaluated from their AST for k = 1..5.  (R2) the delay the policy returns reaches
-the scheduled wake-up unchanged and a delayed tick is popped only when due.
+the scheduled wake-up unchanged and a delayed tick is popped only when due (and every due tick is).
+(R3) the retry number survives the copies the reducer takes of the state on every tick: each explicit
+re-construction of a state record in the state module's copy methods passes every field of the record.
 Not decided: scheduling latency.
 """
 
@@ -214,6 +216,9 @@ def run(chk) -> None:
             f = facts_at(cfg, n, expand_locals=True)
             chk.ob("C06.R2", "scheduling happens exactly for positive delays", has_fact(f, f"{cmd}.delay is not None") and has_fact(f, f"{cmd}.delay > 0"), m=mr, node=c, fn=pc, instance="delay:positive-only",
                    reason=f"guards are {sorted(f)[:6]}")
+    # ---------------------------------------------------------------- R3 the retry number survives the reducer's state copies
+    from ._engine import copy_completeness
+    chk.floor("C06.R3", "explicit copy constructions in the state module's copy methods", copy_completeness(chk, "C06.R3"), 2)
     _, pop = repo.func(f"{RUNNER}.pop_due_ticks")
     loops = [n for n in ast.walk(pop) if isinstance(n, ast.While)]
     chk.floor("C06.R2", "pop loops in pop_due_ticks", len(loops), 1)
@@ -250,6 +255,9 @@ def run(chk) -> None:
 
 
 TWINS = [
+    Twin("queue copy drops the retry bookkeeping", "packages/llama-index-workflows/src/workflows/runtime/types/internal_state.py", "            queue=[dataclasses.replace(x) for x in self.queue],", "            queue=[EventAttempt(event=x.event, recovery_counts=dict(x.recovery_counts)) for x in self.queue],", "C06.R3"),
+    Twin("in-progress copy forgets attempts", "packages/llama-index-workflows/src/workflows/runtime/types/internal_state.py", "            attempts=self.attempts,\n            first_attempt_at=self.first_attempt_at,\n            last_exception=self.last_exception,", "            first_attempt_at=self.first_attempt_at,\n            last_exception=self.last_exception,", "C06.R3"),
+    Twin("benign: queue copy spelled out in full", "packages/llama-index-workflows/src/workflows/runtime/types/internal_state.py", "            queue=[dataclasses.replace(x) for x in self.queue],", "            queue=[EventAttempt(event=x.event, attempts=x.attempts, first_attempt_at=x.first_attempt_at, last_exception=x.last_exception, last_failed_at=x.last_failed_at, recovery_counts=dict(x.recovery_counts)) for x in self.queue],", None),
     Twin("reducer passes attempts+2", CL_REL, "            failures = this_execution.attempts + 1\n", "            failures = this_execution.attempts + 2\n", "C06.R1"),
     Twin("chain skips ahead", RP_REL, "        idx = min(attempts, len(self.strategies) - 1)", "        idx = min(attempts + 1, len(self.strategies) - 1)", "C06.R1"),
     Twin("chain forwards shifted attempts", RP_REL, "        return self.strategies[idx](attempts, seed=seed)", "        return self.strategies[idx](attempts - idx, seed=seed)", "C06.R1"),
